@@ -9,7 +9,7 @@ ALL = ["C%02d" % i for i in range(1, 21)]
 CLAIMS = {
     "C13": dict(
         category="model_checking", design_ref="DESIGN.md section 4, C13",
-        technique="TLA+ spec ControlPoints/ControlPointOps checked by TLC (complete reachable graph per kind + bounded combined sequences); one real-code test per TLC transition; trace validation of recorded random histories (Trace_ControlPoints)",
+        technique="TLA+ spec ControlPoints/ControlPointOps checked by TLC (complete reachable graph per kind + bounded combined sequences); one real-code test per TLC transition; trace validation of recorded random histories (Trace_ControlPoints); Apalache inductive-invariant check of strict sortedness for arbitrary integer times",
         text="TLC checks ordering, one-point-per-time, redundancy (as an action property) and lookup semantics on the complete reachable state graph of add operations over the property's alphabet; every transition of that graph is replayed through the real ControlPoints::add and *_point_at and compared state-for-state, and random long histories with fractional/negative times recorded from the real API are validated against the same spec.",
         note="Trusted: TLC, the harness projection (cp.rs, ~100 lines), times finite and not -0.0; values on a 1/1000 lattice."),
 }
@@ -21,24 +21,24 @@ CLAIMS["C05"] = dict(
     note="Trusted: TLC, the spelling table + classifier in harness/src/framing.rs (self-checked), the byte-counting BufRead used to attribute deliveries to lines. Text decoding/line splitting is C08/C10.")
 CLAIMS["C07"] = dict(
     category="model_checking", design_ref="DESIGN.md section 4, C07",
-    technique="TLA+ spec Framing with the decoder table Handles and invariant C07Projection checked by TLC; every TLC-generated file decoded by all nine real decoder types and compared field by field with Beatmap and with the fold over the decoder's handled deliveries",
+    technique="TLA+ spec Framing with the decoder table Handles and invariant C07Projection checked by TLC; every TLC-generated file decoded by all nine real decoder types and compared field by field with Beatmap and with the fold over the decoder's handled deliveries; the Records / TimingLines case streams and a whole-map corpus (bundled, generated, hostile, line-shuffled) decoded by all nine decoders",
     text="The model states that the driver is decoder-independent and that a specialised decoder applies exactly the deliveries of the sections it handles; TLC checks this on every file up to the bound and the harness checks on every such file (records of all sections, valid and invalid) that each of the eight specialised decoders returns Beatmap's values for all shared fields.",
     note="Trusted: TLC, the field lists in harness/src/framing.rs::c07_diffs (written from the public struct definitions). Deeper record contents are covered because the C06/C11/C12/C14 replays run the same comparison.")
 
 CLAIMS["C12"] = dict(
     category="model_checking", design_ref="DESIGN.md section 4, C12",
-    technique="TLA+ spec TimingLines (pending group + ControlPointOps) refined to the declarative legacy rule, checked by TLC on all line sequences up to a bound over factored alphabets; every TLC-generated sequence replayed through the real TimingPoints decoder; trace validation (Trace_TimingLines) of long random unsorted sequences with the flushed lists logged after every line",
+    technique="TLA+ spec TimingLines (pending group + ControlPointOps) refined to the declarative legacy rule, checked by TLC on all line sequences up to a bound over factored alphabets; every TLC-generated sequence replayed through the real TimingPoints decoder; trace validation (Trace_TimingLines) of long random unsorted sequences with the flushed lists logged after every line; SectionOrder.tla ([General] records between timing lines) replayed; tlc -simulate long behaviours replayed; invariant Shape evaluated on real output with exotic times",
     text="TLC shows that the operational decoder (pending time, push-front/push-back, flush, redundancy-aware add) computes exactly the declarative legacy rule (maximal runs of close times; last inherited else first timing-change per kind; add in order) for every sequence up to the bound, with sortedness and clamp invariants; the real decoder is compared with the model's predicted four lists on every enumerated sequence under two spellings, and long random sequences recorded from the real parser must be behaviours of the same operators.",
     note="Trusted: TLC, the spelling table harness/src/timing.rs, exactness rule (velocities on a 1/1000 lattice), times = whole ms plus 0+ (1e-17); -0 and NaN times are outside the alphabet.")
 
 CLAIMS["C14"] = dict(
     category="model_checking", design_ref="DESIGN.md section 4, C14",
-    technique="TLA+ specs HitObjectLine + PathString + Samples (abstract hit-object lines, path tokens, bank infos) with structural invariants checked by TLC; every TLC-generated line sequence replayed line by line into the real parse_hit_objects on its public state",
+    technique="TLA+ specs HitObjectLine + PathString + Samples (abstract hit-object lines, path tokens, bank infos) with structural invariants checked by TLC; every TLC-generated line sequence replayed line by line into the real parse_hit_objects on its public state; trace validation of long random line sequences (Trace_HitObjectLine); tlc -simulate long behaviours replayed",
     text="The legacy grammar is transcribed as operators over abstract lines (type/sound bits, coordinate truncation and limits, repeat/length/duration rules, node lists, bank infos, the path-token decoder with its implicit-segment rules); TLC enumerates every type byte, every sound byte, combo sequences, numeric and rejection classes, bank-info shapes and every path token string up to the bound, checks the structural invariants of the decoded objects, and the real parser is compared with the predicted object after every line under two spellings.",
     note="Trusted: TLC, the spelling table and projection in harness/src/hitobj.rs; values are integers (fraction class only for truncation); paths are spelled around four named points.")
 CLAIMS["C06"] = dict(
     category="model_checking", design_ref="DESIGN.md section 4, C06",
-    technique="TLA+ spec HitObjectLine (Accept/Reject actions with the scratch state a line can pass on) and TimingLines (Reject = stutter): invariant 'result = fold of accepted lines' checked by TLC; replay of every generated sequence line by line plus the model-free relation decode(file) == decode(file minus rejected lines); a Neg config keeps the pinned (leaking) behaviour as a violated model",
+    technique="TLA+ spec HitObjectLine (Accept/Reject actions with the scratch state a line can pass on) and TimingLines (Reject = stutter): invariant 'result = fold of accepted lines' checked by TLC; replay of every generated sequence line by line plus the model-free relation decode(file) == decode(file minus rejected lines); a Neg config keeps the pinned (leaking) behaviour as a violated model; long random sequences with frequent rejections: state and decode result with vs. without the rejected lines",
     text="TLC checks over all sequences up to the bound (valid records x every rejection class, including failures deep inside multi-segment paths) that the decoded objects are a fold of the accepted lines only; the real parser is replayed on each sequence with per-line Ok/Err compared with the model's verdict, and the decoder's result is compared with that of the same file without the rejected lines.",
     note="Trusted: TLC, harness spelling tables. Key/value, event and colour sections are covered by C11's Records check.")
 
@@ -70,18 +70,18 @@ CLAIMS["C08"] = dict(
     note="Trusted: TLC, harness ScheduledReader (BufRead contract), Beatmap's PartialEq plus expected_dist comparison.")
 CLAIMS["C09"] = dict(
     category="fault_enumeration", design_ref="DESIGN.md section 4, C09",
-    technique="TLA+ spec Reader with a fault environment (failure at any offset x kind, Interrupted budget): invariant ErrorProvenance and liveness FaultSurfaces/Terminates checked by TLC; replay through a faulting BufRead; systematic fault injection at every read offset and every write offset of real files (FaultWriter: error kinds, zero-length writes, short writes, Interrupted, flush failure)",
+    technique="TLA+ spec Reader with a fault environment (failure at any offset x kind, Interrupted budget): invariant ErrorProvenance and liveness FaultSurfaces/Terminates checked by TLC; replay through a faulting BufRead; systematic fault injection at every read offset and every write offset of real files (FaultWriter: error kinds, zero-length writes, short writes, Interrupted, flush failure); Writer.tla (the Write object as environment of write_all/flush) with every script of per-call answers replayed into Beatmap::encode",
     text="On the model TLC enumerates every fault offset and kind under every schedule and checks that decoding ends with exactly that error iff the fault is reached, that Interrupted never surfaces and that no error appears without a reader failure; the real code is replayed on those behaviours, and on bundled/random files a fault is injected at every byte offset (sampled for large files) x five kinds on read and at every output offset on write (hard error, zero-length write), with short writes and Interrupted writes required to be transparent and a flush failure required to be returned.",
     note="Fault enumeration is exhaustive on the model's short files and on small real files; large files use sampled offsets. The write side is bound by injection only (no TLA+ model of std's write_all).")
 CLAIMS["C10"] = dict(
     category="model_checking", design_ref="DESIGN.md section 4, C10",
-    technique="TLA+ spec Reader: the operational line reader refined to a declarative rule that splits UTF-16 on the code unit U+000A only, checked by TLC over payloads containing 0x0A-bearing units, surrogate halves and invalid UTF-8; replay comparing delivered text with std's lossy conversion of the model's raw lines; cross-encoding equality and lossy-reference relations on real texts; exhaustive Unicode scalar sweep in the thorough tier",
+    technique="TLA+ spec Reader: the operational line reader refined to a declarative rule that splits UTF-16 on the code unit U+000A only, checked by TLC over payloads containing 0x0A-bearing units, surrogate halves and invalid UTF-8; replay comparing delivered text with std's lossy conversion of the model's raw lines; cross-encoding equality and lossy-reference relations on real texts; exhaustive Unicode scalar sweep in the thorough tier; units file set: payloads of whole UTF-16 code units whose 0x00 / 0x0A bytes meet inside and across unit boundaries",
     text="TLC checks that the byte-level reader and the text-level rule agree for every payload up to the bound in UTF-8, UTF-16LE and UTF-16BE (including an LE stream cut inside its final newline); the real reader must deliver, for each such file, exactly std's lossy text of the model's lines; bundled and random texts with hostile characters (U+4E0A, U+0A41, U+0A0A, U+FEFF, astral) must decode identically in all four encodings, invalid UTF-8 and unpaired surrogates must equal the per-line lossy reference, and the thorough tier sweeps every Unicode scalar value as metadata content in the three BOM encodings.",
     note="Trusted: TLC, std's lossy conversions as the reference. An odd trailing byte of a UTF-16 stream is dropped (not determined by the statement; the model follows the code).")
 
 CLAIMS["C11"] = dict(
     category="model_checking", design_ref="DESIGN.md section 4, C11",
-    technique="TLA+ spec Records: table-driven format rules (type per key, conversion per type, defaults, event and colour rules) with invariants LastWins, ARRule, Ranges and the action property RejectStutters checked by TLC on all record sequences up to a bound; every sequence replayed through the section's own decoder and Beatmap with field-by-field and per-line verdict comparison",
+    technique="TLA+ spec Records: table-driven format rules (type per key, conversion per type, defaults, event and colour rules) with invariants LastWins, ARRule, Ranges and the action property RejectStutters checked by TLC on all record sequences up to a bound; every sequence replayed through the section's own decoder and Beatmap with field-by-field and per-line verdict comparison; trace validation of long random record sequences per section (Trace_Records)",
     text="The rules of the statement are written as TLA+ tables independent of the Rust call graph; TLC enumerates every sequence of up to 2-3 records over every recognised key x value class (valid, boundary, overflow, NaN/inf, empty, padded, comment-suffixed, extra colon, enum names) plus unknown keys, duplicates, all event kinds and colour shapes, and checks last-valid-wins, the AR-follows-OD rule, clamps, break ordering and that a rejected record is a stutter; the real decoders must produce exactly the predicted struct and verdicts.",
     note="Trusted: TLC, the spelling table and projections in harness/src/records.rs. Floats on a 1/100 lattice; 2^31 / 2^31-1 are not given to f32 fields (not representable).")
 
@@ -92,7 +92,7 @@ CLAIMS["C02"] = dict(
     note="Number formatting (shortest round-trip Display) is assumed from the Rust standard library. Known findings (recorded, not repaired): four control-point shapes and sub-EPSILON times, see known_findings.json. Section writers other than paths/samples/timing are bound by the whole-map comparison only.")
 CLAIMS["C04"] = dict(
     category="model_checking", design_ref="DESIGN.md section 4, C04",
-    technique="TLA+ invariants PathCodec!Accepted and TimingEncode!EncAccepted (every encoded path / timing line is accepted by the decoder model) checked by TLC; the real encoder's output compared token by token with the models; the encoded text of bundled, generated, hostile and non-chronological maps validated line by line against the public section parsers (the encoded text is the trace)",
+    technique="TLA+ invariants PathCodec!Accepted and TimingEncode!EncAccepted (every encoded path / timing line is accepted by the decoder model) checked by TLC; the real encoder's output compared token by token with the models; the encoded text of bundled, generated, hostile and non-chronological maps validated line by line against the public section parsers (the encoded text is the trace); Encoder.tla (state machine over emitted lines) with the encoded text of every corpus map validated as its trace (Trace_Encoder)",
     text="TLC shows on the models that the encoder never writes a slider path or timing line its decoder rejects; the real encoder's path text must equal the model's tokens for every decodable path string, and for every map of the corpus the encoded text must start with a version line, contain each header once in canonical order, have every record line accepted by its section's parse function, and re-decode to the same number of objects, timing points, breaks and colours.",
     note="Trusted: TLC, harness/src/roundtrip.rs::c04_problems (line classification). Key/value section writers are bound by the line-by-line validation only (no TLA+ model of their text).")
 
@@ -104,7 +104,7 @@ CLAIMS["C03"] = dict(
 
 CLAIMS["C15"] = dict(
     category="model_checking", design_ref="DESIGN.md section 4, C15",
-    technique="TLA+ spec MapPost (TimingLines decoder composed with stable sort, break sweep, slider velocity/duration and sample-point defaults at end+5 ms / node+5 ms) with invariants SortedStable, ComboAfterBreak, ClosedForms and ShiftInvariant checked by TLC over all small maps; replay through HitObjects and Beatmap (a sample also shifted); text-level shift relation on bundled and generated files",
+    technique="TLA+ spec MapPost (TimingLines decoder composed with stable sort, break sweep, slider velocity/duration and sample-point defaults at end+5 ms / node+5 ms) with invariants SortedStable, ComboAfterBreak, ClosedForms and ShiftInvariant checked by TLC over all small maps; replay through HitObjects and Beatmap (a sample also shifted); text-level shift relation on bundled and generated files; SortedStable evaluated on generated files with 25-95 objects, few distinct times (incl. signed zero), shuffled order",
     text="TLC enumerates every map of up to two objects (four kinds, equal and boundary start times, flags, sample shapes) x five timing sections x five break lists x multipliers x modes and checks that objects come out in stable time order, that the first object after a break starts a combo, the closed forms of velocity and duration, and that processing commutes with shifting all times by +-1, -7 and +-10^6 ms; the real decoders are compared with the predicted objects (combo flags, velocity, duration, object and node sample bank/volume/custom index) on every case, and on real files with whole-millisecond times a text-level shift by seven different offsets must change nothing but the times.",
     note="Exactness rule: dyadic velocities and durations so that the `+5 ms` lookups are decided exactly; breaks in chronological file order; at most 2 objects per enumerated map.")
 
